@@ -64,9 +64,19 @@ func Harness_C32_set() {
 		t += dt
 	}
 	clk.now = zz.MonoTime(t)
+	pre := -1
+	switch zz.Choose("firstQuery", 3) {
+	case 1:
+		pre = len(s.Members())
+	case 2:
+		pre = s.Length()
+	}
 	c0, c1 := s.Contains("a"), s.Contains("b")
 	mem := s.Members()
 	n := s.Length()
+	if pre >= 0 {
+		zz.Assert(pre == n, "whichever query is asked first at an instant gives the same answer")
+	}
 	m0, m1 := false, false
 	for _, x := range mem {
 		if x == "a" {
@@ -134,6 +144,19 @@ func Harness_C32_map() {
 		t += dt
 	}
 	clk.now = zz.MonoTime(t)
+	// whichever listing is asked first (none of the others has swept expired entries yet) already
+	// reports exactly the live entries
+	pre := -1
+	switch zz.Choose("firstQuery", 5) {
+	case 1:
+		pre = len(m.SortedValues())
+	case 2:
+		pre = len(m.Values())
+	case 3:
+		pre = m.Length()
+	case 4:
+		pre = len(m.SortedKeys())
+	}
 	v0, ok0 := m.Get("a")
 	v1, ok1 := m.Get("b")
 	ks := m.Keys()
@@ -175,6 +198,9 @@ func Harness_C32_map() {
 	zz.Assert(ok0 == want0, "present iff within TTL of the latest set")
 	zz.Assert(ok1 == want1, "present iff within TTL of the latest set (second key)")
 	zz.Assert(n == cnt, "Length counts exactly the live items")
+	if pre >= 0 {
+		zz.Assert(pre == cnt, "the first listing asked at an instant lists exactly the live items")
+	}
 	if ok0 {
 		zz.Assert(v0 == val[0], "Get returns the latest value")
 	}
